@@ -518,9 +518,36 @@ def from_inert_ok(bs, cs):
         return inert([ord(c) for c in cut8(bs).decode("utf-8", "replace")])
     return inert([ord(c) for c in cut16(bs).decode("utf-16-be" if cs == 1 else "utf-16-le", "replace")])
 
+def hangul_border_texts(r):
+    """aimed at the case splits of the algorithmic Hangul part of archive_string_normalize_C/D: L, V, T jamo at
+    and just outside their ranges (LBase 1100+19, VBase 1161+21, TBase 11A7 with TCount 28: 11A7 itself is NOT a
+    trailing consonant), LV and LVT syllables followed by each of them"""
+    L = [0x10FF, 0x1100, 0x1101, 0x1112, 0x1113]
+    V = [0x1160, 0x1161, 0x1162, 0x1175, 0x1176]
+    T = [0x11A6, 0x11A7, 0x11A8, 0x11A9, 0x11C2, 0x11C3]
+    LV = [0xAC00, 0xAC00 + 28, 0xAC00 + 28 * 7, 0xD788]          # LV syllables (index multiple of 28)
+    LVT = [0xAC01, 0xAC1B, 0xD7A3]
+    out = []
+    for l in L:
+        for v in V:
+            out.append([l, v])
+            for t in T:
+                out.append([l, v, t])
+    for sy in LV + LVT:
+        for t in T + V + L:
+            out.append([sy, t])
+            out.append([0x41, sy, t, 0x2E])
+    for sy in LV:
+        out.append([sy, 0x11A8, 0x11A8])
+        out.append([sy, 0x0301, 0x11A8])
+    return out
+
 def gen_nfc_cases(r, n):
     """from_charset (normalising) on arbitrary, also combining, input: oracle only"""
     cases = []
+    for us in hangul_border_texts(r):
+        for cs in range(3):
+            cases.append(vfmt([3, 1, cs, enc8(us) if cs == 0 else enc16(us, cs == 1)]))
     for us in COMBINING:
         for cs in range(3):
             cases.append(vfmt([3, 1, cs, enc8(us) if cs == 0 else enc16(us, cs == 1)]))
